@@ -1,6 +1,8 @@
 package main
 
 import (
+	"fmt"
+	"strings"
 	"time"
 
 	cose "github.com/veraison/go-cose"
@@ -27,8 +29,22 @@ func followUps(c *Collector, r *Rng, kind string, data []byte, d *decoded) {
 	ext := pick(r, [][]byte{nil, {}, []byte("ext")})
 	vf := &spyVerifier{alg: pick(r, []cose.Algorithm{cose.AlgorithmES256, cose.AlgorithmPS256, cose.AlgorithmEdDSA, -65536})}
 	sg := &spySigner{alg: vf.alg, kind: SOk, sig: []byte{1, 2, 3}}
+	// the built-in verifiers (real keys of every algorithm) on whatever was decoded: an error, never a panic
+	realVerify := func(what string, f func(v cose.Verifier)) {
+		for _, k := range realKeySet(r) {
+			v := k.verifier()
+			if p, val := protect(func() { f(v) }); p {
+				c.Fail("C06/panic-followup/"+what, fmt.Sprintf("%s with the built-in %v verifier panicked on a value returned by the %s decoder: %v", what, k.alg, kind, val), rep)
+				return
+			}
+		}
+	}
 	switch {
 	case d.s1 != nil:
+		realVerify("Sign1Message.Verify", func(v cose.Verifier) {
+			d.s1.Verify([]byte("ext"), v)
+			cose.VerifyCountersign0(v, d.s1, nil, d.s1.Signature)
+		})
 		op, obs, _, p := execVerify1(d.s1, ext, vf)
 		panicFail("Sign1Message.Verify", p)
 		addCase(c, "followup/verify1", op, obs, true)
@@ -49,6 +65,10 @@ func followUps(c *Collector, r *Rng, kind string, data []byte, d *decoded) {
 			}
 		}
 	case d.sig != nil:
+		realVerify("Signature.Verify", func(v cose.Verifier) {
+			d.sig.Verify(v, []byte{0x40}, []byte("payload"), []byte("ext"))
+			(*cose.Countersignature)(d.sig).Verify(v, &cose.Sign1Message{Headers: cose.Headers{Protected: cose.ProtectedHeader{}}, Payload: []byte("p"), Signature: []byte{1}}, []byte("ext"))
+		})
 		bp := pick(r, [][]byte{{0x40}, {0x43, 0xa1, 0x01, 0x26}, {}, {0xa0}})
 		op, obs, _, p := execSigVerify(d.sig, vf, bp, []byte("payload"), ext)
 		panicFail("Signature.Verify", p)
@@ -174,6 +194,22 @@ func runC06(c *Collector, r *Rng, thorough bool) {
 		{"DKey", "a30101200623" + "50" + zeros(16)}, {"DKey", "a3010120062358" + "21" + zeros(33)},
 		{"DKey", "a401012006215820" + zeros(32) + "235840" + zeros(64)}, {"DKey", "a3010220012358" + "42" + zeros(66)},
 		{"DKey", "a30104200623" + "5820" + zeros(32)}, {"DKey", "a4010403272006" + "235820" + zeros(32)},
+		// signatures of the right size whose r or s half (or both) is zero, under every ECDSA algorithm, with and
+		// without alg in the protected bucket
+		{"DSign1", "d28443a10126a0f6" + "5840" + zeros(64)}, {"DSign1", "d28443a10126a0f6" + "5840" + zeros(32) + ones(32)}, {"DSign1", "d28443a10126a0f6" + "5840" + ones(32) + zeros(32)},
+		{"DSign1", "d28444a1013822a0f6" + "5860" + zeros(96)}, {"DSign1", "d28444a1013823a0f6" + "5884" + zeros(132)}, {"DSign1", "d28444a1013823a0f6" + "5884" + ones(66) + zeros(66)},
+		{"DSign1", "d28440a0f6" + "5840" + zeros(64)}, {"DSign1", "d28440a0f6" + "5860" + zeros(96)}, {"DSign1", "d28440a0f6" + "5884" + zeros(132)}, {"DSign1", "d28440a0f64100"},
+		{"DSignature", "8343a10126a0" + "5840" + zeros(64)}, {"DSignature", "8340a0" + "5884" + zeros(66) + ones(66)},
+		// curve identifiers outside the registry (negative, private use, huge) on otherwise complete EC2 / OKP keys,
+		// with and without alg
+		{"DKey", "a501022020" + "215820" + ones(32) + "225820" + ones(32) + "235820" + ones(32)}, {"DKey", "a5010203262020" + "215820" + ones(32) + "225820" + ones(32)},
+		{"DKey", "a40102203a00010000" + "215820" + ones(32) + "225820" + ones(32)}, {"DKey", "a401012021" + "215820" + ones(32) + "235820" + ones(32)},
+		{"DKey", "a4010103272021" + "215820" + ones(32)}, {"DKey", "a40102201b7fffffffffffffff" + "215820" + ones(32) + "225820" + ones(32)},
+		{"DKey", "a40102203b7fffffffffffffff" + "215820" + ones(32) + "225820" + ones(32)}, {"DKey", "a301012018ff" + "215820" + ones(32)}, {"DKey", "a30102200a" + "215820" + ones(32)},
+		// EC2 keys with a compressed point (y given as the sign bit), x on and off the curve
+		{"DKey", "a40102200121" + "5820" + zeros(31) + "01" + "22f5"}, {"DKey", "a40102200121" + "5820" + zeros(31) + "01" + "22f4"},
+		{"DKey", "a40102200121" + "5820" + zeros(31) + "05" + "22f5"}, {"DKey", "a40102200321" + "5842" + zeros(65) + "03" + "22f5"},
+		{"DKey", "a50102200121" + "5820" + zeros(31) + "01" + "22f5" + "23" + "5820" + ones(32)},
 	} {
 		in := unhex(cs.hex)
 		d := timed(cs.kind, in)
@@ -247,3 +283,5 @@ func runC06(c *Collector, r *Rng, thorough bool) {
 	}
 	_ = slow
 }
+
+func ones(n int) string { return strings.Repeat("01", n) }
